@@ -5,8 +5,9 @@
     The models follow the code AS IT IS in /repo. Where the code violates the property the full
     statement is kept ([encode_matches_abi], [fallback_same_descriptor], [timestamp_matches_posix],
     [wait_status_matches_posix]), proved false, and the theorem that holds carries the exclusion
-    as a named predicate ([h20_class], [h24_class], [h9_class], [h22_safe]; H21: regular only).
-    [_fixed] theorems are about the code after proposed_fix_h9.diff / proposed_fix_h22.diff. *)
+    as a named predicate ([h20_class], [h24_class]). H9, H21 and H22 are repaired in /repo: the
+    full statements hold, the pre-repair functions ([…_h21], [timestamp_h9], …) are kept only for
+    the [_refuted] witnesses. *)
 From A10 Require Import Base.Word Model.Encode Model.ResultDecode Proofs.EncodeProofs Proofs.ResultDecodeProofs.
 
 (** (A) Every operation x {Regular, Direct}: the SQE a10 fills in decodes, through the ABI table, to the call the
@@ -58,18 +59,29 @@ Proof. exact result_einval_is_masked_holds. Qed.
 Theorem C13_from_raw_roundtrip : from_raw_roundtrip.
 Proof. exact from_raw_roundtrip_holds. Qed.
 
-(** (C) Synchronous fallbacks: the documented call on the same descriptor for regular descriptors; H21 for direct ones. *)
+(** (C) Synchronous fallbacks: the documented call on the same descriptor, for both kinds (full statement, holds
+    since the repair of H21); a direct descriptor never reaches a system call and keeps the kernel's error. *)
+Theorem C13_fallback_same_descriptor : fallback_same_descriptor.
+Proof. exact fallback_same_descriptor_holds. Qed.
+
 Theorem C13_fallback_same_descriptor_regular : fallback_same_descriptor_regular.
 Proof. exact fallback_same_descriptor_regular_holds. Qed.
 
+Theorem C13_fallback_direct_never_calls : fallback_direct_never_calls.
+Proof. exact fallback_direct_never_calls_holds. Qed.
+
+Theorem C13_fallback_direct_keeps_error : fallback_direct_keeps_error.
+Proof. exact fallback_direct_keeps_error_holds. Qed.
+
+Theorem C13_fallback_repair_regular_unchanged : fallback_repair_regular_unchanged.
+Proof. exact fallback_repair_regular_unchanged_holds. Qed.
+
+(** H21, the code before the repair. *)
 Theorem C13_fallback_h21_refuted : fallback_h21_refuted_stmt.
 Proof. exact fallback_h21_refuted. Qed.
 
 Theorem C13_fallback_h21_every_direct_socket_fallback : fallback_h21_every_direct_socket_fallback.
 Proof. exact fallback_h21_every_direct_socket_fallback_holds. Qed.
-
-Theorem C13_fallback_same_descriptor_fails : ~ fallback_same_descriptor.
-Proof. exact fallback_same_descriptor_fails. Qed.
 
 (** (B) Metadata accessors. *)
 Theorem C13_file_type_is_posix_macro : file_type_is_posix_macro.
@@ -134,7 +146,10 @@ Check C13_from_raw_roundtrip : from_raw_roundtrip.
 Check C13_fallback_same_descriptor_regular : fallback_same_descriptor_regular.
 Check C13_fallback_h21_refuted : fallback_h21_refuted_stmt.
 Check C13_fallback_h21_every_direct_socket_fallback : fallback_h21_every_direct_socket_fallback.
-Check C13_fallback_same_descriptor_fails : ~ fallback_same_descriptor.
+Check C13_fallback_same_descriptor : fallback_same_descriptor.
+Check C13_fallback_direct_never_calls : fallback_direct_never_calls.
+Check C13_fallback_direct_keeps_error : fallback_direct_keeps_error.
+Check C13_fallback_repair_regular_unchanged : fallback_repair_regular_unchanged.
 Check C13_file_type_is_posix_macro : file_type_is_posix_macro.
 Check C13_file_type_exclusive : file_type_exclusive.
 Check C13_permission_flags_are_mode_bits : permission_flags_are_mode_bits.
@@ -165,7 +180,10 @@ Print Assumptions C13_from_raw_roundtrip.
 Print Assumptions C13_fallback_same_descriptor_regular.
 Print Assumptions C13_fallback_h21_refuted.
 Print Assumptions C13_fallback_h21_every_direct_socket_fallback.
-Print Assumptions C13_fallback_same_descriptor_fails.
+Print Assumptions C13_fallback_same_descriptor.
+Print Assumptions C13_fallback_direct_never_calls.
+Print Assumptions C13_fallback_direct_keeps_error.
+Print Assumptions C13_fallback_repair_regular_unchanged.
 Print Assumptions C13_file_type_is_posix_macro.
 Print Assumptions C13_file_type_exclusive.
 Print Assumptions C13_permission_flags_are_mode_bits.
